@@ -150,6 +150,74 @@ def _eval_case(case):
         dec = ReadBuf(enc).read_list()
         if dec != names:
             fails.append(['namelist-decode', '%r -> %r' % (names, dec)])
+    elif k == 'histories':
+        # values live on after they were decoded or encoded: what one holder does to its copy is no other holder's business,
+        # and an object that was changed encodes what it holds now
+        from ssh_audit.ssh2_kex import SSH2_Kex
+        from ssh_audit.outputbuffer import OutputBuffer
+        names = case['names']
+        nt = True
+        enc = wire.namelist(names)
+        first = ReadBuf(enc).read_list()
+        first.append('edited-by-first-holder')
+        if len(first) > 1:
+            first[0] = 'x'
+        again = ReadBuf(enc).read_list()
+        if again != names:
+            fails.append(['decoded-list-shared-between-holders', '%r decoded again after the first result was edited: %r' % (names, again)])
+        B = lambda l: [x.encode('latin-1') for x in l]
+        payload = wire.kexinit(B(names), [b'ssh-ed25519'], B(names[::-1]), [b'hmac-sha2-256'])
+        k1 = SSH2_Kex.parse(OutputBuffer(), payload[1:])
+        k1.kex_algorithms.append('edited')
+        k1.server.encryption.reverse()
+        k2 = SSH2_Kex.parse(OutputBuffer(), payload[1:])
+        if k2.kex_algorithms != names or k2.server.encryption != names[::-1] or k2.payload != payload[1:]:
+            fails.append(['decoded-message-shared-between-holders', 'second parse of the same bytes after the first object was edited: %r / %r' % (k2.kex_algorithms, k2.server.encryption)])
+        # encode, edit in place, encode again
+        k3 = SSH2_Kex.parse(OutputBuffer(), payload[1:])
+        p_before = k3.payload
+        k3.kex_algorithms.append(case['extra'])
+        k3.server.mac.insert(0, case['extra'])
+        p_after = k3.payload
+        try:
+            ref = wire.parse_kexinit(b'\x14' + p_after, strict=True)
+            if [x.decode('latin-1') for x in ref['kex']] != names + [case['extra']] or [x.decode('latin-1') for x in ref['mac_s2c']] != [case['extra'], 'hmac-sha2-256']:
+                fails.append(['edited-message-encodes-stale-value', 'after appending %r the message encodes kex %r, s2c MACs %r' % (case['extra'], ref['kex'][-2:], ref['mac_s2c'])])
+        except ValueError as e:
+            fails.append(['edited-message-does-not-decode', str(e)])
+        if p_before != payload[1:]:
+            fails.append(['kexinit-reencode', 'before the edit'])
+        w = WriteBuf()
+        k3.write(w)
+        if w.write_flush() != p_after:
+            fails.append(['write-and-payload-disagree', 'after an in-place edit'])
+    elif k == 'dheat_packets':
+        # the packets the (explicitly requested) DoS test builds by hand: framed per RFC 4253 6, and the string inside
+        # announces exactly the bytes that follow, for every algorithm and every length setting
+        from ssh_audit.dheat import DHEat
+        d = DHEat.__new__(DHEat)
+        d.e_rand_len = case['elen']
+        d.kex_init_body = wire.kexinit([b'curve25519-sha256'], [b'ssh-ed25519'], [b'aes128-ctr'], [b'hmac-sha2-256'])[17:]
+        nt = True
+        pkts = [('kexdh-init', d.make_dh_kexinit(case['alg']), 30), ('gex-init', d.make_dh_kexinit(case['alg'], gex_msb=case['msb']), 32), ('gex-request', d.make_gex_request(case['bits']), 34), ('kexinit', d.make_kexinit(), 20)]
+        for what, raw, mtype in pkts:
+            pl, problems = wire.check_packet_framing(raw)
+            if problems or pl is None:
+                fails.append(['dheat-packet-framing', '%s for %s (length setting %d): %s' % (what, case['alg'], case['elen'], '; '.join(problems))])
+                continue
+            if pl[0] != mtype:
+                fails.append(['dheat-packet-type', '%s: type %d' % (what, pl[0])])
+            if what in ('kexdh-init', 'gex-init'):
+                n = struct.unpack('>I', pl[1:5])[0]
+                if n != len(pl) - 5:
+                    fails.append(['dheat-string-length-inconsistent', '%s for %s (length setting %d): the string announces %d bytes, %d follow' % (what, case['alg'], case['elen'], n, len(pl) - 5)])
+            if what == 'gex-request' and (len(pl) != 13 or struct.unpack('>III', pl[1:]) != (case['bits'],) * 3):
+                fails.append(['dheat-gex-request', pl.hex()])
+            if what == 'kexinit':
+                try:
+                    wire.parse_kexinit(pl, strict=True)
+                except ValueError as e:
+                    fails.append(['dheat-kexinit-does-not-parse', str(e)])
     elif k == 'kexinit_long':
         # one very long name-list inside a whole KEXINIT: parse -> same names; write -> same bytes
         from ssh_audit.ssh2_kex import SSH2_Kex
@@ -544,6 +612,12 @@ def run(ctx):
         cases.append({'kind': 'namelist', 'names': ['n%x' % i for i in range(n)]})
         cases.append({'kind': 'namelist', 'names': ['a'] * n})
         cases.append({'kind': 'kexinit_long', 'n': n, 'field': n % 10})
+    for i in range(40 if q else 400):
+        cases.append({'kind': 'histories', 'names': ['alg-%d-%d@example.com' % (i, j) for j in range(1 + i % 5)], 'extra': 'late-addition-%d' % i})
+    from ssh_audit.dheat import DHEat
+    for alg in sorted(set(list(DHEat.alg_priority) + list(DHEat.gex_algs))):
+        for elen in (0, 1, 4, 62, 63, 126, 254, 510, 1022):
+            cases.append({'kind': 'dheat_packets', 'alg': alg, 'elen': elen, 'msb': 1 + (elen * 7) % 254, 'bits': [2048, 3072, 4096, 8192][elen % 4]})
     ctx.map(cases, chunk=2000)
     f = 1 if q else 15
     ctx.hyp('strat_bigint', 20000 * f, label=1)
